@@ -220,6 +220,8 @@ def render(p):
 
 
 def regenerate():
+    from . import py2lean
+    py2lean.regenerate()       # the translated functions (Generated/PyAst.lean)
     path = os.path.join(LEAN_DIR, 'Generated', 'Live.lean')
     text = render(collect())
     old = None
